@@ -17,6 +17,8 @@ TITRATABLE_READERS = {
     ('conformation_container', 'ConformationContainer.find_bonded_titratable_groups'):
         'covalent coupling is between titratable groups only',
     ('energy', 'check_coulomb_pair'): 'Coulomb pairs need two titratable groups',
+    ('group', 'Group.calculate_intrinsic_pka'):
+        'a non-titratable partner keeps its hydrogen bond in the intrinsic pKa (C14.R2 partner-titratable)',
 }
 
 
@@ -55,6 +57,13 @@ def run(ctx):
     ctx.ob('C14.R1', 'option:-i', len(opts) == 1 and opts[0].get('dest') == 'titrate_only'
            and opts[0].get('type') == 'parse_res_list',
            '-i/--titrate_only is parsed by parse_res_list into options.titrate_only', lib,
+           opts[0]['node'] if opts else lib.func('build_parser'))
+    # a list may be given in several pieces: with the default "store" action a
+    # second -i silently replaces the first (the residues of the first become
+    # non-titratable), while -c and -f accumulate
+    ctx.ob('C14.R1', 'option:-i-accumulates', len(opts) == 1 and opts[0].get('action') in ('extend',),
+           'repeated -i options extend one list (action %r; parse_res_list returns a list per '
+           'option, so "append" would nest them)' % (opts[0].get('action') if opts else None), lib,
            opts[0]['node'] if opts else lib.func('build_parser'))
     prl = lib.func('parse_res_list')
     ctx.ob('C14.R1', 'parse-list:every-entry',
@@ -115,6 +124,58 @@ def run(ctx):
         ctx.ob('C14.R2', 'cys-hiding:only-cys',
                any(p and "residue_type == 'CYS'" in t for t, p in facts),
                'only CYS groups are hidden from the results', cc, hide[0][2])
+    # "exactly the listed residues' groups are reported" - in every report, not only
+    # in the averaged one: both section writers print a group only if it passes
+    # the same filter as the groups that go into the average (use_in_calculations)
+    outm = prog.mod('output')
+    for secq, meth in (('get_determinant_section', 'get_determinant_string'),
+                       ('get_summary_section', 'get_summary_string')):
+        sec = outm.func(secq)
+        scan = canon(sec)
+        emits = [c for c in calls_in(sec, nested=False) if last_attr(c) == meth]
+        okf = False
+        if len(emits) == 1:
+            gv = norm(emits[0].func.value)
+            okf = any(p and t == gv + '.use_in_calculations()' for t, p in fact_texts(emits[0], sec))
+            if not okf:
+                loops = [n for n in ast.walk(sec) if isinstance(n, ast.For)
+                         and any(emits[0] is x for x in ast.walk(n))]
+                src = scan.expr(loops[-1].iter) if loops else None
+                if isinstance(src, ast.ListComp) and len(src.generators) == 1:
+                    tv = norm(src.generators[0].target)
+                    from sa.astutil import flatten_and
+                    okf = norm(src.elt) == tv and any(
+                        pol and norm(e) == tv + '.use_in_calculations()'
+                        for cond in src.generators[0].ifs for e, pol in flatten_and(cond, True))
+        ctx.ob('C14.R2', 'report:only-groups-in-calculations:' + secq, okf,
+               '%s prints a group only if use_in_calculations() admits it: with a titrate-only list '
+               'the unlisted residues stay in every conformation as non-titratable groups, and the '
+               'report of a single conformation (write_pka / print_result on "1A") listed all of them'
+               % secq, outm, emits[0] if emits else sec)
+    # whether a hydrogen-bond partner counts as titratable is read from its flag:
+    # a residue left out of the list is a non-titratable partner whatever its
+    # name, so a classification by residue-name prefix alone treats it as titratable
+    gmod14 = prog.mod('group')
+    n_name_tests = 0
+    for q14, f14 in sorted(gmod14.funcs.items()):
+        for node in walk_no_nested(f14):
+            if isinstance(node, ast.Compare) and len(node.ops) == 1 \
+                    and isinstance(node.ops[0], (ast.In, ast.NotIn)) \
+                    and isinstance(node.left, ast.Subscript) and isinstance(node.left.slice, ast.Slice) \
+                    and norm(node.left.value).endswith('.label') \
+                    and isinstance(node.comparators[0], (ast.List, ast.Tuple, ast.Set)) \
+                    and {getattr(e, 'value', None) for e in node.comparators[0].elts} >= {'ASP', 'LYS'}:
+                n_name_tests += 1
+                par = node._parent
+                mates = par.values if isinstance(par, ast.BoolOp) else []
+                flagged = any(isinstance(x, ast.Attribute) and x.attr == 'titratable'
+                              for m in mates for x in ast.walk(m)) or any(
+                    'titratable' in t for t, _p in fact_texts(node, f14))
+                ctx.ob('C14.R2', 'partner-titratable:by-flag:' + q14, flagged,
+                       '%s classifies a partner as titratable by the residue name in its label together '
+                       'with its titratable flag (a residue left out of --titrate_only keeps its name)'
+                       % q14, gmod14, node)
+    ctx.note('name_based_titratable_tests', n_name_tests)
     # the list is used for membership only and read in one place
     reads = common.option_reads(prog).get('titrate_only', [])
     ctx.ob('C14.R2', 'option:single-reader',
